@@ -140,7 +140,7 @@ func TestC06(t *testing.T) {
 		t.Fatal(err)
 	}
 	var glist []*msgInfo
-	for _, mi := range genv.layouts {
+	for _, mi := range genv.sorted() {
 		glist = append(glist, mi)
 	}
 	r := vh.Sub(seed, "c06")
